@@ -524,16 +524,17 @@ def tla_step(s):
 def validate_traces(chk, tier, traces, name=None):
     """traces: list of (cfg, steps). One TLC run; -> list of verdicts dict(ok, explained, failing_at, failing, dev)"""
     name = name or "Restart_traces_%s" % tier
-    body = "---- MODULE %s ----\nEXTENDS Restart_trace\nMCConfigs == {}\nMCAllDeviations == AllDeviations\nMCTraces == <<\n" % name
-    body += ",\n".join("  [c |-> %s,\n   steps |-> <<%s>>]" % (tla_config(c), ",\n      ".join(tla_step(s) for s in st))
-                       for c, st in traces)
-    body += "\n>>\n====\n"
     os.makedirs(GEN, exist_ok=True)
+    ndjson = os.path.join(GEN, name + ".ndjson")
     with open(os.path.join(GEN, name + ".tla"), "w") as f:
-        f.write(body)
+        f.write("---- MODULE %s ----\nEXTENDS Restart_trace\nMCConfigs == {}\nMCAllDeviations == AllDeviations\n====\n" % name)
+    keep = ("act", "reason", "answer", "code", "ran", "hook", "restarts", "resub", "alive", "final")
+    with open(ndjson, "w") as f:
+        for c, st in traces:
+            f.write(json.dumps({"c": c, "steps": [{k: s[k] for k in keep} for s in st]}) + "\n")
     cfgp = write_cfg(name, "CONSTANTS\n  Configs <- MCConfigs\n  MaxRuns = 0\n  MaxCount = 0\n  Deviations <- MCAllDeviations\n"
-                           "  Emit = FALSE\n  Traces <- MCTraces\nINIT TraceInit\nNEXT TraceNext\nINVARIANT TraceEmit\n"
-                           "CHECK_DEADLOCK FALSE\n")
+                           "  Emit = FALSE\n  TraceFile = \"%s\"\nINIT TraceInit\nNEXT TraceNext\nINVARIANT TraceEmit\n"
+                           "CHECK_DEADLOCK FALSE\n" % ndjson)
     r = run_tlc(name, cfgp, workers=1, timeout=1500)
     if not r["ok"]:
         raise MachineryError("trace validation run failed:\n%s" % r["out"][-2500:])
@@ -612,7 +613,7 @@ def random_traces(chk, tier, configs, scratch):
     from .. import world_c12 as W
     from ..common import seed
     rng = random.Random(seed() * 7919 + 12)
-    n = 400 if tier == "quick" else 4000
+    n = 1200 if tier == "quick" else 8000
     worlds, where = [], {}
     try:
         for (sim, default_hook), cs in sorted(group_worlds(configs).items()):
